@@ -108,6 +108,17 @@ func c05Mutation(c *Ctx, f *Family, r *rand.Rand) {
 		steps = 2 + r.Intn(3)
 		c.Count("chains.in_place", 1)
 	}
+	if len(f.Ops) == 0 && r.Intn(4) == 0 {
+		// the genome object as a crossover of the library hands it over (what the reproduction of a species mutates), not a
+		// copy of it, and a longer history on it
+		op := opKind(int(opMateMultipoint) + r.Intn(3))
+		if child, err := f.applyMate(op, src, f.pickMember(r), f.newId(), r.Float64(), r.Float64()); err == nil && child != nil && len(child.Genes) > 0 &&
+			len(child.Nodes) <= 60 && snapGenome(child).Broken == "" {
+			g = child
+			steps = 2 + r.Intn(4)
+			c.Count("chains.in_place_on_a_genome_fresh_from_a_crossover", 1)
+		}
+	}
 	for k := 0; k < steps && !c.Violated(); k++ {
 		if !c05Step(c, f, r, g, src) {
 			return
